@@ -107,6 +107,9 @@ type Machine struct {
 	guardOn              bool
 	noSample             bool
 	dlogs                []*dlog
+	stdin, stdout        []value
+	stdinChunk           int
+	fixedNow             uint64
 	hexModel  bool
 	rawCRC    bool
 	entry     func(g *G)
